@@ -1,7 +1,7 @@
 # STACKED ON F_convSrcNamed: a conversion to a pointer (or other non-identifier) type needs parentheses: (*T)(x)
 p="internal/mapper/match.go"
 s=open(p).read()
-s=s.replace('''func qualifiedTypeName(t types.Type, alias string) string {''','''// convTypeName is the type as it has to be written in a conversion T(x): `*T`, `<-chan T`, `func()` need parentheses
+s=s.replace('''func canNameMatch(f1, f2 *Field, tagMap map[string]string, ignoreCase bool) bool {''','''// convTypeName is the type as it has to be written in a conversion T(x): `*T`, `<-chan T`, `func()` need parentheses
 func convTypeName(name string) string {
 	if strings.HasPrefix(name, "*") || strings.HasPrefix(name, "<-") || strings.HasPrefix(name, "func") {
 		return "(" + name + ")"
@@ -9,7 +9,7 @@ func convTypeName(name string) string {
 	return name
 }
 
-func qualifiedTypeName(t types.Type, alias string) string {''')
+func canNameMatch(f1, f2 *Field, tagMap map[string]string, ignoreCase bool) bool {''')
 s=s.replace('''f2.Type = types.TypeString(f2.typ, g.qualifier)''','''f2.Type = convTypeName(types.TypeString(f2.typ, g.qualifier))''')
 s=s.replace('''f1.Type = types.TypeString(f1.typ, g.qualifier)''','''f1.Type = convTypeName(types.TypeString(f1.typ, g.qualifier))''')
 open(p,"w").write(s)
